@@ -74,6 +74,7 @@ type Options struct {
 	ForcedModel    map[string]uint64
 	ForcedSchedule []int
 	CrossSolvers   []string
+	GlobalYield    bool // reads and writes of package-level variables are scheduling points
 	Seed           int
 	DelayBound     bool
 }
